@@ -97,7 +97,105 @@ def selftest() -> None:
     assert res.accepted and sum(1 for r in rec if r[0] == "e") >= 4 and sum(1 for r in rec if r[0] == "reset") == 2, rec
 
 
+def _build_conflict(rng):
+    """Small programs in which two or three names are bound several times, in several ways and at several scope levels — eager
+    constants of one, two and three bytes, `=` constants, labels in bank 00 and in bank 01, members of named scopes (also written
+    in pieces) — with unsized and sized uses of the plain and the qualified names scattered between the definitions.  Every
+    defect of the family "sized with one binding, emitted with another" (d1f8205, a34840b, 911227a, 801ed04, f4ae6fe, 6e17792)
+    is a point of this space; the oracles are the model-free ones (size observer, self-pointers, explicit-size twin)."""
+    L = lambda v: ["lit", v, "x"]
+    names, scopes = ["nm_a", "nm_b"], ["sc_a", "sc_b"]
+    state = {"org": 0, "sp": 0, "bank": 0}
+
+    def org():
+        state["org"] += 1
+        state["bank"] = rng.choice([0, 1])
+        return {"k": "org", "a": (0x008000 if state["bank"] == 0 else 0x018000) + state["org"] * 0x200}
+
+    uses = []
+
+    def use(in_scopes):
+        quals = [f"{sc}.{n}" for sc in scopes for n in names]
+        ident = rng.choice(names + quals) if rng.random() < 0.6 else rng.choice(quals)
+        if rng.random() < 0.6:
+            st = {"k": "ins", "m": "lda", "shape": ["", None, None], "sfx": rng.choice(["w", "l"]), "e": ["id", ident]}
+            uses.append(st)
+            return st
+        return {"k": "data", "d": rng.choice(["dl", "dw"]), "es": [["id", ident]]}
+
+    def definition():
+        n = rng.choice(names)
+        r = rng.random()
+        if r < 0.3:
+            return [{"k": "const", "n": n, "e": L(rng.choice([0x12, 0x1234, 0x123456])), "eager": True}]
+        if r < 0.45:
+            return [{"k": "const", "n": n, "e": L(rng.choice([0x12, 0x1234, 0x123456])), "eager": False}]
+        return [{"k": "label", "n": n}, {"k": "data", "d": "db", "es": [L(rng.randrange(256))]}]
+
+    def selfptr():
+        state["sp"] += 1
+        n = f"lb_s{state['sp']}"
+        return [{"k": "label", "n": n}, {"k": "data", "d": "dl", "es": [["id", n]]}]
+
+    def body(depth, in_scopes):
+        out = []
+        for _ in range(rng.randint(2, 6 if depth == 0 else 4)):
+            r = rng.random()
+            if r < 0.28:
+                out += definition()
+            elif r < 0.55:
+                out.append(use(in_scopes))
+                if rng.random() < 0.6:
+                    out += selfptr()
+            elif r < 0.65 and depth < 3:
+                out.append({"k": "block", "b": body(depth + 1, in_scopes)})
+            elif r < 0.85 and depth < 3:
+                sc = rng.choice(scopes)
+                out.append({"k": "scope", "n": sc, "b": body(depth + 1, in_scopes + [sc])})
+            elif r < 0.93:
+                out.append(org())
+            else:
+                out += selfptr()
+        return out
+
+    ir = [org()] + body(0, []) + selfptr()
+    # every name that is used has a definition somewhere it can be seen from: what is missing is defined at the end of the top level
+    defined = set()
+
+    def collect(stmts, path):
+        for st in stmts:
+            if st["k"] in ("label", "const"):
+                defined.add(".".join(path[-1:] + [st["n"]]) if path else st["n"])
+                if not path:
+                    defined.add(st["n"])
+            elif st["k"] == "scope":
+                collect(st["b"], path + [st["n"]])
+            elif st["k"] == "block":
+                collect(st["b"], [])
+
+    collect(ir, [])
+    top = {st["n"] for st in ir if st["k"] in ("label", "const")}
+    tail = []
+    for n in names:
+        if n not in top:
+            tail += [{"k": "label", "n": n}, {"k": "data", "d": "db", "es": [L(0x77)]}]
+    for sc in scopes:
+        missing = [n for n in names if not any(st["k"] == "scope" and st["n"] == sc and any(x["k"] in ("label", "const") and x["n"] == n for x in st["b"]) for st in ir)]
+        if missing:
+            tail.append({"k": "scope", "n": sc, "b": [y for n in missing for y in ({"k": "label", "n": n}, {"k": "data", "d": "db", "es": [L(0x78)]})]})
+    # mostly in front (so that what follows re-defines visible names), sometimes at the end (forward references)
+    ir = ir[:1] + tail + ir[1:] if rng.random() < 0.65 else ir + tail
+    # one or two of the instruction uses lose their size suffix: these are the operands whose width is inferred
+    for st in rng.sample(uses, min(len(uses), rng.choice([1, 1, 2]))):
+        st["sfx"] = ""
+        if rng.random() < 0.4:
+            st["m"], st["shape"] = rng.choice([("sta", ["", None, "x"]), ("adc", ["", None, None]), ("jmp", ["", None, None])])
+    return {"rom": "low", "files": {}, "ir": ir, "model_free": True}
+
+
 def _build(rng):
+    if rng.random() < 0.2:
+        return _build_conflict(rng)
     return progen.generate(rng, PROFILE)
 
 
@@ -262,6 +360,15 @@ def enum_units(tier, seed):
             for ctx in ("root", "block"):
                 wrap = body if ctx == "root" else [{"k": "block", "b": body}]
                 cases.append({"rom": "low", "files": {}, "ir": [{"k": "org", "a": 0x008000}] + wrap})
+    # ... and the other way round: the first piece defines the name as a label, the second one as a := constant of another width
+    # (found by the binding-conflict generator: the label passes exported the constant again after the label)
+    for v in (0x12, 0x91A2B):
+        for ref in (lda(["id", "sc_p.lb_q"]), {"k": "ins", "m": "sta", "shape": ["", None, "x"], "sfx": "", "e": ["id", "sc_p.lb_q"]}):
+            body = [{"k": "scope", "n": "sc_p", "b": [{"k": "label", "n": "lb_q"}, db(0)]}, ref] + sp("lb_mid") + \
+                   [{"k": "scope", "n": "sc_p", "b": [{"k": "const", "n": "lb_q", "e": L(v), "eager": True}]}] + sp("lb_end")
+            for ctx in ("root", "block"):
+                wrap = body if ctx == "root" else [{"k": "block", "b": body}]
+                cases.append({"rom": "low", "files": {}, "ir": [{"k": "org", "a": 0x008200}] + wrap, "model_free": True})
     return {"units": [{"cases": cases}], "exhaustive": False}
 
 
@@ -464,9 +571,11 @@ def run_case(case) -> Outcome:
         elif treal["blocks"] != real["blocks"] or sorted(treal["labels"]) != sorted(real["labels"]):
             out.bad("sized-twin:differs", case, f"the program with the inferred widths written as suffixes assembles differently: {driver.blocks_json(real['blocks'], 24)} vs {driver.blocks_json(treal['blocks'], 24)}\n--- original\n{src}\n--- twin\n{tsrc}")
     # ---- (3) reference model where applicable -----------------------------------------------------------------
+    # (not for the binding-conflict programs: which of several bindings of one name counts where is C08's question and the
+    # statement of C02 leaves it open — there the size observer, the self-pointers and the twin decide)
     model = refasm.assemble(ir, rom=rom, files=model_files(files))
     out.labels.append(f"model:{model.status}")
-    if model.status == "ok":
+    if model.status == "ok" and not case.get("model_free"):
         if sorted(real["labels"]) != sorted(model.labels):
             a, b = collections.Counter(real["labels"]), collections.Counter(model.labels)
             out.bad("model:labels", case, f"label values differ from the reference layout: only real {sorted((a - b).elements())[:5]} only model {sorted((b - a).elements())[:5]}\n{src}")
